@@ -138,15 +138,15 @@ func c29(r *core.Run) {
 	whoMayCall(r, "R2.callers", "ArgumentDecoder.DecodeArgument", func(o *types.Func) bool {
 		return o != nil && o.Name() == "DecodeArgument" && o.Pkg() != nil && o.Pkg().Path() == mod+"/runtime" && core.RecvName(o) != "ExternalInterface" && core.RecvName(o) != "EmptyRuntimeInterface"
 	}, map[string]string{
-		"runtime.importValidatedArguments": "the validating import",
+		"runtime.importValidatedArguments":           "the validating import",
 		"runtime.(ExternalInterface).DecodeArgument": "host wrapper",
 	})
 	whoMayCall(r, "R2.callers", "runtime.importValidatedArguments", funcOf(mod+"/runtime", "importValidatedArguments"), map[string]string{
-		"runtime.(scriptExecutor).execute":          "script entry point (interpreter)",
-		"runtime.(scriptExecutor).executeWithVM":    "script entry point (VM)",
-		"runtime.(transactionExecutor).execute":     "transaction entry point (interpreter)",
-		"runtime.(transactionExecutor).executeWithVM": "transaction entry point (VM)",
-		"runtime.(scriptExecutor).scriptExecutionFunction": "script entry point (interpreter)",
+		"runtime.(scriptExecutor).execute":                           "script entry point (interpreter)",
+		"runtime.(scriptExecutor).executeWithVM":                     "script entry point (VM)",
+		"runtime.(transactionExecutor).execute":                      "transaction entry point (interpreter)",
+		"runtime.(transactionExecutor).executeWithVM":                "transaction entry point (VM)",
+		"runtime.(scriptExecutor).scriptExecutionFunction":           "script entry point (interpreter)",
 		"runtime.(transactionExecutor).transactionExecutionFunction": "transaction entry point (interpreter)",
 	})
 	r.Floor("R2.callers", 4)
